@@ -129,6 +129,32 @@ def oracle(spec):
                 fail("C18:edge-count:%s" % tbl, "exactly one edge between its two junctions", table=tbl, index=int(idx), edges=n_edges)
             if not expected and n_edges != 0:
                 fail("C18:edge-for-disabled:%s" % tbl, "no edge for out-of-service / cut elements", table=tbl, index=int(idx))
+    # the status switches: `respect_status_branches_all=False` keeps an edge for every junction-to-junction element whatever its
+    # status (only edges at out-of-service junctions vanish with their node); `respect_status_valves=False` stops closed
+    # junction-pipe valves from cutting their pipe; `True` / default behave as above
+    for rs, rv in ((False, True), (False, False), (True, False)):
+        try:
+            g2 = create_nxgraph(net, respect_status_branches_all=rs, respect_status_valves=rv)
+        except Exception as ex:
+            fail("C18:status-arguments:raises", "argument combinations", respect_status_branches_all=rs, respect_status_valves=rv,
+                 exc=repr(ex)[:120])
+            continue
+        keys = [k for _a, _b, k in g2.edges(keys=True)]
+        for tbl, fc, tc, act in BR:
+            if not oracles.has(net, tbl):
+                continue
+            t = net[tbl]
+            for idx in t.index:
+                if tbl == "valve" and t.at[idx, "et"] == "pi":
+                    continue
+                u, w = int(t.at[idx, fc]), int(t.at[idx, tc])
+                on = (bool(t.at[idx, act]) or not rs) and u in alive and w in alive and \
+                    not (rv and tbl == "pipe" and int(idx) in closed_pv)
+                cnt = keys.count((tbl, idx))
+                if cnt != (1 if on else 0):
+                    fail("C18:status-arguments:%s" % tbl, "edges under explicit status arguments", table=tbl, index=int(idx),
+                         respect_status_branches_all=rs, respect_status_valves=rv, edges=cnt, expected=1 if on else 0,
+                         element_active=bool(t.at[idx, act]))
     if set(mg.nodes()) - set(int(j) for j in net.junction.index):
         fail("C18:phantom-node", "graph nodes are junctions", nodes=sorted(set(mg.nodes()) - set(int(j) for j in net.junction.index))[:3])
     # unsupplied (plus out-of-service) = junctions without a pressure result
